@@ -291,6 +291,11 @@ func (sv *ECDSASignatureVerifier) Verify(pubKey *PublicKey, msg, signature []byt
 		return errors.New("ecdsa: invalid public key type")
 	}
 
+	// the algorithm fixes the curve: a key on another curve (possible when the key comes as JWK) is not a key for it
+	if ecdsaPubKey.Curve == nil || ecdsaPubKey.Curve.Params().Name != ec.curve.Params().Name {
+		return errors.New("ecdsa: public key curve does not match the signature algorithm")
+	}
+
 	if len(signature) < 2*ec.keySize {
 		return errors.New("ecdsa: invalid signature size")
 	}
